@@ -435,3 +435,51 @@ def csv_roundtrip_native(B):
         import shutil
         shutil.rmtree(tmp, ignore_errors=True)
     return {"exhaustive_within_bound": False}
+
+
+@contract("C19", targets=[PV + "Variant.from_databox_variant", PV + "Variant._apply_fallbacks", PV + "Variant._apply_overwrites", PI + "Invariant.nonbase_columns"],
+          instances=[((1, 2, 3), 5), ((0, 1), 3), ((2,), 4)], opts={"max_paths": 2000})
+def clipping_to_the_base_span_comes_before_fallbacks_and_overwrites(K, base, T):
+    """clip_data_to_base_span=True blanks the INPUT data outside the base periods; the declared fallbacks and overwrites
+    are then applied over the whole slate span (initial and terminal periods included): a blanked cell of a name with a
+    fallback holds the fallback, an overwritten name holds the overwrite everywhere."""
+    periods = tuple(D.QuarterlyPeriod(8000 + i) for i in range(T))
+    names = ("plain", "fb", "ow")
+    inv = K.obj(DI.Invariant, names=names, periods=periods, descriptions=("", "", ""), logly_indexes=(), base_columns=tuple(base), output_qids=(0, 1, 2), min_max_shift=(0, 0))
+    plain, fb, ow = K.array("plain", (T,)), K.array("fb", (T,)), K.array("ow", (T,))
+    f, o = K.real("fallback"), K.real("overwrite")
+    v = K.call(DV.Variant.from_databox_variant, {"plain": plain, "fb": fb, "ow": ow}, inv, fallbacks={"fb": f}, overwrites={"ow": o}, clip_data_to_base_span=True)
+    data = K.attr(v, "data")
+    K.ensure("shape", K.shape(data) == (3, T))
+    for t in range(T):
+        inside = t in base
+        K.ensure(f"column {t}: plain name - input inside the base span, missing outside", K.cell_eq(K.cell(data, 0, t), K.cell(plain, t)) if inside else K.cell_is_nan(K.cell(data, 0, t)))
+        want_fb = K.cell_ite(K.cell_is_nan(K.cell(fb, t)), lambda: K.real_cell(f), lambda t=t: K.cell(fb, t)) if inside else K.real_cell(f)
+        K.ensure(f"column {t}: fallback name - input or fallback inside, the fallback outside", K.cell_eq(K.cell(data, 1, t), want_fb))
+        K.ensure(f"column {t}: overwritten name - the overwrite everywhere", K.cell_eq(K.cell(data, 2, t), K.real_cell(o)))
+
+
+@contract("C19", targets=[PE + "_resolve_frequency_span", PE + "_resolve_frequency_names", PE + "_get_total_num_data_rows", PD + "Databox.get_series_names_by_frequency",
+                          PD + "Databox.get_span_by_frequency"], instances=[()], cross=2, opts={"max_paths": 400})
+def every_series_gets_a_block_in_the_csv_sheet(K):
+    """With the default spans, the export writes one block per frequency present in the databox - the block of series
+    WITHOUT observations (no start, frequency UNKNOWN) included, so that their names and descriptions survive the round
+    trip - and each block lists exactly the series of its frequency."""
+    q = Series(start=D.qq(2020, 1), values=(1.0, 2.0, 3.0))
+    q2 = Series(start=D.qq(2020, 3), values=(4.0, 5.0))
+    y = Series(start=D.yy(2020), values=(7.0,))
+    e = Series()
+    db = K.call(Databox)
+    for n, s in (("q", q), ("empty", e), ("y", y), ("q2", q2), ("number", 3.5)):
+        K.setitem(db, n, K.lift(s) if isinstance(s, Series) else s)
+    fs = K.call(EXP._resolve_frequency_span, db, None, None)
+    keys = [k for k in K.items(fs)]
+    F = D.Frequency
+    K.ensure("one block per frequency present, the block of the series without observations included", set(keys) == {F.QUARTERLY, F.YEARLY, F.UNKNOWN})
+    fn = K.call(EXP._resolve_frequency_names, db, fs)
+    K.ensure("quarterly block", tuple(K.index(fn, F.QUARTERLY)) == ("q", "q2"))
+    K.ensure("yearly block", tuple(K.index(fn, F.YEARLY)) == ("y",))
+    K.ensure("block of the series without observations", tuple(K.index(fn, F.UNKNOWN)) == ("empty",) if F.UNKNOWN in keys else False)
+    qspan = [K.attr(p, "serial") for p in K.items(K.index(fs, F.QUARTERLY))]
+    K.ensure("the quarterly block spans all quarterly series", qspan == [D.qq(2020, 1).serial + i for i in range(4)])
+    K.ensure("height of the sheet: the longest block", K.call(EXP._get_total_num_data_rows, fs) == 4)
